@@ -19,7 +19,9 @@ CONSTANTS Conns,        \* connection incarnations (each id connects at most onc
           WrongKinds,   \* broker-to-client kinds a client may (wrongly) send
           MsgBudget,    \* number of free client messages per behaviour
           InitSerial,   \* initial value of the broker's call serial counter (wrap-around configurations)
-          ScriptSel,    \* name of the deterministic prefix of inputs ("none", "svc", "svc2", "chan", "lst")
+          Senders,      \* connections that send the free messages (all of Conns, or e.g. only the owner of the scripted entity)
+          PoolKinds,    \* which cookies the generator uses: subset of {"live", "dead", "never"}
+          ScriptSel,    \* name of the deterministic prefix of inputs ("none", "svc", "chan", "lst", "lstf")
           V0, V1        \* versions of the scripted connections 0 and 1
 
 O == INSTANCE Obs
@@ -60,6 +62,12 @@ Script ==
          << [t |-> "new", c |-> 0, ver |-> V0],
             [t |-> "new", c |-> 1, ver |-> V1],
             MsgEv(0, [k |-> "CreateBusListener", serial |-> 0]) >>
+    [] ScriptSel = "lstf" ->     \* connection 1 owns object 101 (cookie 1); connection 0 owns a listener (cookie 2) with an any-object filter
+         << [t |-> "new", c |-> 0, ver |-> V0],
+            [t |-> "new", c |-> 1, ver |-> V1],
+            MsgEv(1, [k |-> "CreateObject", serial |-> 0, uuid |-> 101]),
+            MsgEv(0, [k |-> "CreateBusListener", serial |-> 0]),
+            MsgEv(0, [k |-> "AddBusListenerFilter", cookie |-> 2, filter |-> [ft |-> "obj", o |-> 0, s |-> 0]]) >>
     [] OTHER -> << >>
 ScriptConns == {Script[i].c : i \in {i \in 1..Len(Script) : Script[i].t = "new"}}
 NoRec == [t |-> "none"]
@@ -75,7 +83,8 @@ LiveOf(ty) == CASE ty = "obj" -> DOMAIN bk.objUuids [] ty = "svc" -> DOMAIN bk.s
                 [] ty = "chan" -> DOMAIN bk.chans [] OTHER -> DOMAIN bk.lsts
 DeadOf(ty) == LET D == {k \in DOMAIN ctype : ctype[k] = ty} \ LiveOf(ty) IN
               IF D = {} THEN {} ELSE {CHOOSE k \in D : \A j \in D : j <= k}      \* the most recent dead one
-Pool(ty) == LiveOf(ty) \cup DeadOf(ty) \cup {NEVER}
+Pool(ty) == (IF "live" \in PoolKinds THEN LiveOf(ty) ELSE {}) \cup (IF "dead" \in PoolKinds THEN DeadOf(ty) ELSE {})
+            \cup (IF "never" \in PoolKinds THEN {NEVER} ELSE {})
 OptSerial == {[has |-> TRUE, serial |-> s] : s \in CSerials} \cup {[has |-> FALSE, serial |-> 0]}
 Filters == {[ft |-> "obj", o |-> 0, s |-> 0]} \cup {[ft |-> "obj", o |-> o, s |-> 0] : o \in ObjUuids}
            \cup {[ft |-> "svc", o |-> o, s |-> s] : o \in ObjUuids \cup {0}, s \in SvcUuids \cup {0}}
@@ -157,7 +166,7 @@ EnvConnect ==
 
 EnvMsg ==
   /\ Free /\ Room /\ env.sent < MsgBudget
-  /\ \E c \in Conns : Sending(c) /\ \E kind \in Kinds \cup WrongKinds :
+  /\ \E c \in Senders : Sending(c) /\ \E kind \in Kinds \cup WrongKinds :
        /\ (CreateType(kind) # "" => nextCookie <= MaxCookie)
        /\ \E m \in Gen(kind) : inq' = Append(inq, [t |-> "msg", c |-> c, m |-> m])
   /\ env' = [env EXCEPT !.sent = @ + 1]
